@@ -35,6 +35,13 @@
 (*   actC, attC    caches: [np, nd, ent] with ent[i] a tag or Empty        *)
 (*   eff           memoised efficiency for unscattered photons: tag/Unset  *)
 (*   useCache, asu settings flag, "_already_set_up"                        *)
+(*   thr, rnd      version of the attenuation threshold, random-placement  *)
+(*                 flag: the sampled points depend on them (ptsFrom)       *)
+(*   zoom, zoomAuto  version of the down-sampling settings; automatic      *)
+(*                 settings are derived from the template                  *)
+(*   spFrom        what a DERIVED scatter-point image was derived from     *)
+(*                 (Given for an image supplied by the caller)             *)
+(*   ptsFrom       what the points were sampled from                       *)
 (*   geo           geometry class of the template (scanners differing     *)
 (*                 only in energy resolution are the same geometry)        *)
 (*   out           geometry class the output projection data were made     *)
@@ -48,12 +55,20 @@ NoCache == [np |-> 0, nd |-> 0, ent |-> << >>]
 EmptyCache(np, nd) == [np |-> np, nd |-> nd, ent |-> [i \in 1..(np * nd) |-> Empty]]
 
 InitObj == [act |-> 0, att |-> 0, tmpl |-> 0, energy |-> 0, spImg |-> 0, pts |-> 0, np |-> 0, nd |-> 0,
-            actC |-> NoCache, attC |-> NoCache, eff |-> Unset, useCache |-> TRUE, asu |-> FALSE, geo |-> 0, out |-> 0]
+            actC |-> NoCache, attC |-> NoCache, eff |-> Unset, useCache |-> TRUE, asu |-> FALSE, geo |-> 0, out |-> 0,
+            thr |-> 0, rnd |-> FALSE, zoom |-> 0, zoomAuto |-> FALSE, spFrom |-> << 0, 0, 0 >>, ptsFrom |-> << 0, 0, 0 >>]
 
 \* what a line integral / the efficiency computed NOW would be computed from
 ActNow(s) == << s.act, s.pts, s.tmpl >>
 AttNow(s) == << s.att, s.pts, s.tmpl >>
 EffNow(s) == << s.energy, s.tmpl >>
+\* (beyond the property's list of settings) derived data other than the caches:
+\* what a scatter-point image derived NOW / points sampled NOW would be made from
+Given == << 0, 0, 0 >>
+SpNow(s) == << s.att, s.zoom, IF s.zoomAuto THEN s.tmpl ELSE 0 >>
+PtsNow(s) == << s.spImg, s.thr, IF s.rnd THEN 1 ELSE 0 >>
+SpStale(s) == s.spImg # 0 /\ s.spFrom # Given /\ s.spFrom # SpNow(s)
+PtsStale(s) == s.spImg # 0 /\ s.ptsFrom # PtsNow(s)
 
 (* ------------------------------ setters -------------------------------- *)
 \* Every setter that changes a setting clears the set-up flag and removes the caches
@@ -64,10 +79,20 @@ SetActOp(s) == [s EXCEPT !.act = @ + 1, !.actC = NoCache, !.asu = FALSE]
 SetAttOp(s) == [s EXCEPT !.att = @ + 1, !.spImg = 0, !.attC = NoCache, !.asu = FALSE]
 \* new scatter-point image (given explicitly, or down-sampled from the attenuation image):
 \* points are re-sampled, both caches removed
-NewPointsOp(s, n) == [s EXCEPT !.spImg = s.pts + 1, !.pts = @ + 1, !.np = n, !.actC = NoCache, !.attC = NoCache, !.asu = FALSE]
+NewPointsOp(s, n) == [s EXCEPT !.spImg = s.pts + 1, !.pts = @ + 1, !.np = n, !.actC = NoCache, !.attC = NoCache, !.asu = FALSE,
+                               !.spFrom = Given, !.ptsFrom = << s.pts + 1, s.thr, IF s.rnd THEN 1 ELSE 0 >>]
 SetSpOp(s, n) == NewPointsOp(s, n)
+\* the image is down-sampled from the attenuation image with the current settings
+DeriveOp(s, n) == [NewPointsOp(s, n) EXCEPT !.spFrom = SpNow(s)]
+\* same image, points sampled again (threshold / placement changed)
+ResampleOp(s, n) == [s EXCEPT !.pts = @ + 1, !.np = n, !.actC = NoCache, !.attC = NoCache, !.asu = FALSE, !.ptsFrom = PtsNow(s)]
 DownsampleErr(s) == s.att = 0
-DownsampleOp(s, n) == IF DownsampleErr(s) THEN s ELSE NewPointsOp(s, n)
+\* downsample_density_image_for_scatter_points(zoom...): stores the settings and derives at once
+DownsampleOp(s, n) == IF DownsampleErr(s) THEN s ELSE DeriveOp([s EXCEPT !.zoom = @ + 1, !.zoomAuto = FALSE], n)
+\* (beyond the property) settings the sampled points / the derived image depend on
+SetThrOp(s) == [s EXCEPT !.thr = @ + 1, !.asu = FALSE]
+SetRndOp(s, b) == [s EXCEPT !.rnd = b, !.asu = FALSE]
+SetZoomOp(s) == [s EXCEPT !.zoom = @ + 1, !.zoomAuto = FALSE, !.asu = FALSE]
 \* template: detector sampling changes, so both caches, the detection points and the memoised
 \* efficiency go
 SetTmplOp(s, nd, g) == [s EXCEPT !.tmpl = @ + 1, !.nd = nd, !.geo = g, !.actC = NoCache, !.attC = NoCache, !.eff = Unset, !.asu = FALSE]
@@ -80,20 +105,40 @@ SetEnergyOp(s) == [s EXCEPT !.energy = @ + 1, !.asu = FALSE]
 SetCacheOp(s, b) == IF b = s.useCache THEN s
                     ELSE [s EXCEPT !.useCache = b, !.actC = NoCache, !.attC = NoCache, !.asu = FALSE]
 SetOutOp(s) == [s EXCEPT !.out = s.geo]
+\* downsample_scanner: a new (coarser) template AND output projection data for it
+DownsampleScannerOp(s, nd, g) == SetOutOp(SetTmplOp(s, nd, g))
+\* downsample_images_to_scanner_size: activity and attenuation image (those that are set) are
+\* replaced by versions zoomed to the template's grid; "zooming of [the scatter-point image] will
+\* happen in set_up": a derived scatter-point image is stale (SpStale), a given one is kept
+DownsampleImagesErr(s) == s.tmpl = 0
+DownsampleImagesOp(s) ==
+  IF DownsampleImagesErr(s) THEN s
+  ELSE [s EXCEPT !.act = IF @ = 0 THEN 0 ELSE @ + 1, !.actC = IF s.act = 0 THEN @ ELSE NoCache,
+                 !.att = IF @ = 0 THEN 0 ELSE @ + 1, !.attC = IF s.att = 0 THEN @ ELSE NoCache,
+                 !.asu = IF s.act = 0 /\ s.att = 0 THEN @ ELSE FALSE]
 
 (* ------------------------------- set_up -------------------------------- *)
 SetUpErr(s) == s.tmpl = 0 \/ s.energy = 0 \/ s.act = 0 \/ s.att = 0
-Derives(s) == s.spImg = 0                          \* set_up has to down-sample the attenuation image
+Derives(s) == s.spImg = 0                          \* no scatter-point image: set_up has to down-sample the attenuation image
+MustDerive(s) == Derives(s) \/ SpStale(s)           \* ... or the derived one is out of date
 Keeps(c, np, nd) == c.np = np /\ c.nd = nd /\ np * nd > 0         \* "keep cache if correct size"
 Alloc(c, np, nd) == IF Keeps(c, np, nd) THEN c ELSE EmptyCache(np, nd)
 \* n = number of scatter points sampled when set_up derives the scatter-point image
 SetUpOp(s, n) ==
   IF SetUpErr(s) THEN s
-  ELSE LET s1 == IF Derives(s) THEN NewPointsOp(s, n) ELSE s IN
+  ELSE LET s0 == IF MustDerive(s) THEN DeriveOp(s, n) ELSE s
+           s1 == IF PtsStale(s0) THEN ResampleOp(s0, n) ELSE s0 IN
        [s1 EXCEPT !.actC = IF s1.useCache THEN Alloc(@, s1.np, s1.nd) ELSE @,
                   !.attC = IF s1.useCache THEN Alloc(@, s1.np, s1.nd) ELSE @,
                   !.eff = Unset,
                   !.asu = TRUE]
+
+\* NAMED DEVIATION (findings C16-zoomlatch, C16-thrstale, C16-derivedstale): the set_up of the
+\* code derives the scatter-point image only when there is none and never samples the points again
+FinishSetUp(s1) == [s1 EXCEPT !.actC = IF s1.useCache THEN Alloc(@, s1.np, s1.nd) ELSE @,
+                              !.attC = IF s1.useCache THEN Alloc(@, s1.np, s1.nd) ELSE @,
+                              !.eff = Unset, !.asu = TRUE]
+SetUpCodeOp(s, n) == IF SetUpErr(s) THEN s ELSE FinishSetUp(IF Derives(s) THEN DeriveOp(s, n) ELSE s)
 
 (* ------------------------------ compute -------------------------------- *)
 \* process_data: "need to call set_up() first"; the output must have been made for the template
@@ -124,6 +169,7 @@ CacheValid(c, now) == \A i \in DOMAIN c.ent : c.ent[i] \in {Empty, now}
 AllValid(s) == /\ Usable(s)
                /\ (s.useCache => CacheValid(s.actC, ActNow(s)) /\ CacheValid(s.attC, AttNow(s)))
                /\ s.eff \in {Unset, EffNow(s)}
+               /\ ~SpStale(s) /\ ~PtsStale(s)
 
 (* ----------------- observations in fixed point (encoding F) ------------- *)
 \* Outputs are logged as round(v * 2^k) with one k per scenario, |v * 2^k| < 2^28.
